@@ -33,6 +33,7 @@ struct kq {
 static struct kq rq, wq;	/* answers for recv / for send */
 static int rfd = -1, wfd = -1;
 static size_t activity;		/* bumped by every kernel answer consumed and every callback */
+static size_t sendused;		/* send answers used during the current op */
 static int eagain_flavour;
 
 /* bytes the peer of the writer has received during the current op */
@@ -136,6 +137,7 @@ __wrap_send(int fd, const void * buf, size_t len, int flags)
 		return (-1);
 	}
 	activity++;
+	sendused++;
 	a = &wq.a[wq.head++];
 	switch (a->kind) {
 	case K_ACCEPT:
@@ -543,11 +545,12 @@ main(void)
 				peerlen = 0;
 				cbreclen = 0;
 				failcbs = 0;
+				sendused = 0;
 				if (do_spin())
 					printf("spinfail ");
 				fmt_bytes(hex, sizeof(hex), peer, peerlen);
-				printf("spin r=%s f=%zu peer=%zu:%s | ", cbreclen ? cbrec : "-", failcbs,
-				    peerlen, hex);
+				printf("spin r=%s f=%zu peer=%zu:%s sa=%zu | ", cbreclen ? cbrec : "-", failcbs,
+				    peerlen, hex, sendused);
 				print_rl2();
 				printf(" ; ");
 				print_wl2();
